@@ -1,6 +1,7 @@
 package main
 
 import (
+	"golang.org/x/tools/go/ssa"
 	"bytes"
 	"context"
 	"fmt"
@@ -73,7 +74,14 @@ func (fc *FnCtx) queryWith(ob *Obligation, axiomEnc bool, withModel bool, extra 
 	for _, a := range fc.globals {
 		body.WriteString("(assert " + a + ")\n")
 	}
-	for _, a := range fc.asserts[:ob.Prefix] {
+	var anc map[*ssa.BasicBlock]bool
+	if ob.Block != nil && os.Getenv("GOVC_NOSLICE") == "" {
+		anc = fc.ancestors(ob.Block)
+	}
+	for i, a := range fc.asserts[:ob.Prefix] {
+		if anc != nil && fc.assertBlk[i] != nil && !anc[fc.assertBlk[i]] {
+			continue
+		}
 		body.WriteString("(assert " + a + ")\n")
 	}
 	for _, a := range extra {
@@ -246,7 +254,8 @@ func (e *Engine) discharge(ob *Obligation, idx int) {
 		if r.res == "unsat" && proved == "" {
 			proved = r.name
 		}
-		if r.res == "sat" && satBy == "" {
+		if r.res == "sat" && satBy == "" && !strings.HasPrefix(r.name, "z3+") && r.name != "z3" {
+			// (a `sat` of z3 4.8.12 on goals with recursive definitions/quantifiers proved unreliable; ignored)
 			satBy = r.name
 			ob.Output = r.out
 		}
